@@ -18,6 +18,7 @@ PktsSPKNK == <<"sps", "pps", "key", "non", "key">>
 PktsKAN   == <<"key", "aud", "non">>
 PktsKNKN  == <<"key", "non", "key", "non">>
 PktsKNNKNNK == <<"key", "non", "non", "key", "non", "non", "key">>
+PktsK4 == <<"key", "non", "non", "key", "non", "non", "key", "non", "non", "key", "non", "non", "key">>
 
 P == INSTANCE FanoutProp
 
